@@ -148,4 +148,34 @@ example : (prun (PState.init 2 5)
      .advance 1]).map
     (fun s => (s.dropped, s.next, allExited s)) = some (true, 2, true) := by decide
 
+/-! ### why the panic hook is needed: the negative control
+
+Without the hook that ends the process, a worker whose processing function panics simply vanishes
+while it owns its item. `vanish` models that. The example exhibits a reachable state of a 2-worker
+pipe in which the other worker waits for a turn that never comes and the consumer is blocked: no
+action other than a failing spin (a stutter) is enabled, nothing was delivered, and the iteration
+is not over. With the hook, the first panic ends the process instead. -/
+
+/-- a worker dies while holding its item (what a panic does without the process-exit hook) -/
+def vanish (s : PState) (w : Nat) : Option PState :=
+  match s.pc w with
+  | .holding _ => some { s with pc := setPc s.pc w .exited }
+  | _ => none
+
+/-- every action of a 2-worker pipe -/
+def actions2 : List PAction :=
+  [.take 0, .take 1, .compute 0, .compute 1, .spin 0, .spin 1, .send 0, .send 1, .advance 0, .advance 1, .recv, .close]
+
+/-- the wedged state: worker 0 took item 0 and vanished, worker 1 computed item 1 and spins -/
+def wedged : Option PState :=
+  (prun (PState.init 2 3) [.take 0, .take 1, .compute 1]).bind (fun s => vanish s 0)
+
+theorem no_hook_wedges :
+    (wedged.map (fun s => (s.closed, s.recvd, s.turn, decide (s.pc 1 = .computed 1)))) = some (false, [], 0, true) ∧
+    (wedged.map (fun s => actions2.all (fun a =>
+        match pstep s a with
+        | none => true                                  -- not enabled
+        | some s' => pmeasure s' == pmeasure s && s'.recvd == s.recvd && s'.closed == s.closed))) = some true := by
+  decide
+
 end Tu.C09
